@@ -289,12 +289,18 @@ def run_case(griffe, acc, case):
                     spellings.append(("path", os.path.join(sps[0], top)))
                 if container == "package":
                     spellings.append(("submodule", top + ".sub"))
+                if container in ("module", "package", "namespace"):
+                    spellings.append(("per-package", top))  # -o with a {package} template: one file per package, holding that package's own serialisation
                 for spelling, request in spellings:
                   for full in (False, True):
                     out = os.path.join(d, "out.json")
+                    out_arg = out
+                    if spelling == "per-package":
+                        out_arg = os.path.join(d, "out-{package}.json")
+                        out = os.path.join(d, f"out-{top}.json")
                     if os.path.exists(out):
                         os.unlink(out)
-                    args = ["dump", request, "-o", out, "-X"] + (["--find-stubs-packages"] if container.startswith("stubs-package") else []) + ([x for sp in sps for x in ("-s", sp)] if spelling != "path" else []) + (["-f"] if full else []) + (["-r", "-I", "--no-resolve-external"] if resolve else [])
+                    args = ["dump", request, "-o", out_arg, "-X"] + (["--find-stubs-packages"] if container.startswith("stubs-package") else []) + ([x for sp in sps for x in ("-s", sp)] if spelling != "path" else []) + (["-f"] if full else []) + (["-r", "-I", "--no-resolve-external"] if resolve else [])
                     try:
                         rc = cli.main(args)
                         got = open(out).read()
@@ -302,7 +308,7 @@ def run_case(griffe, acc, case):
                         acc.violation(f"cli/raise/{type(e).__name__}/{container}", f"griffe {' '.join(args)} raised {e!r}", cd, None, size=size)
                         continue
                     try:
-                        exp = json.dumps({top: mod}, cls=JSONEncoder, indent=2, full=full, sort_keys=True)
+                        exp = mod.as_json(indent=2, full=full, sort_keys=True) if spelling == "per-package" else json.dumps({top: mod}, cls=JSONEncoder, indent=2, full=full, sort_keys=True)
                     except Exception:  # noqa: BLE001
                         continue  # already reported under serialize/
                     if got.rstrip("\n") != exp.rstrip("\n") or rc != 0:
